@@ -3,6 +3,7 @@ executed into SMT and decided by z3."""
 import json
 import multiprocessing as mp
 import os
+import subprocess
 import time
 
 import jitgen
@@ -188,3 +189,62 @@ class JitSmtUnit:
         else:
             r.inconclusive.append("scenario %s: solver reports a counterexample (%s) that the native replay does not show" % (
                 sc.name, ["0x%08x" % v for v in vec]))
+
+
+def replay_file(prop, rp, path):
+    """`./check <prop> --replay <file>` for E-X findings: runs the real JIT
+    function and the interpreter on the recorded inputs."""
+    import struct
+
+    if "problems" in rp and "first_bad" not in rp:
+        # structural finding (ABI / out-of-bounds), decided on the code bytes: re-assemble and re-run the symbolic executor
+        import jitgen
+        kind = rp["kind"]
+        scs = [s for s in jitgen.scenarios(kind, "thorough") if s.name == rp["scenario"]]
+        if not scs or jitgen.assemble(scs):
+            return 2
+        x = {"point": jitsmt.work_point, "fslice": jitsmt.work_fslice, "interval": jitsmt.work_interval}[kind]([(scs[0], None)])[0][0]
+        print(json.dumps({k: v for k, v in x.items() if k in ("status", "problems")}, indent=1))
+        if x["status"] == "fail":
+            print("VIOLATION property=%s replay=%s" % (prop, path))
+            return 1
+        return 0 if x["status"] == "unsat" else 2
+    kind = rp["kind"]
+    vec = [int(w, 16) for w in rp["first_bad"]["vars"]]
+    req = rp["request"] + "|" + " ".join("0x%08x" % v for v in vec)
+    p = subprocess.run([T.TVDUMP, "jitrun", kind], input=req + "\n", capture_output=True, text=True)
+    recs = []
+    for line in p.stdout.splitlines():
+        try:
+            recs.append(json.loads(line))
+        except Exception:
+            pass
+    if not recs:
+        print("jitrun produced nothing: %s" % p.stderr[-300:])
+        return 2
+    r = recs[0]
+    print(json.dumps(r, indent=1))
+    out = [int(w, 16) for w in r["out"].split()]
+    vm = [int(w, 16) for w in r.get("vm_out", "").split()]
+    tr, vtr = r.get("trace"), r.get("vm_trace")
+
+    def fl(w):
+        return struct.unpack("<f", struct.pack("<I", w))[0]
+
+    bad = False
+    if kind == "interval":
+        for i in range(0, len(out), 2):
+            jl, ju, kl, ku = fl(out[i]), fl(out[i + 1]), fl(vm[i]), fl(vm[i + 1])
+            jn, kn = jl != jl or ju != ju, kl != kl or ku != ku
+            if not (jn or (not kn and jl <= kl and ku <= ju)):
+                bad = True
+        if tr not in (None, "none") and vtr not in (None, "none") and any(a != b and a != "3" for a, b in zip(tr, vtr)):
+            bad = True
+        if tr not in (None, "none") and vtr in (None, "none"):
+            bad = True
+    else:
+        bad = norm(out) != norm(vm) or (tr is not None and tr != vtr)
+    if bad:
+        print("VIOLATION property=%s replay=%s" % (prop, path))
+        return 1
+    return 0
